@@ -37,6 +37,8 @@ def rule_op_gates(check):
     lits = [n for n in hir.walk(new.body) if n.get("k") == "Struct" and (n["res"].get("path") or "").endswith("CsiMethods")]
     check.floor(R, "CsiMethods literals in new", len(lits), 1)
     want_names = {"plus_operator": ("DD_PLUS_OPERATOR", "plusOperator"), "tpl_operator": ("DD_TEMPLATE_LITERAL_OPERATOR", "tplOperator")}
+    SUBST = {}
+
     def terms_of_cond_list(fn_, conds):
         terms = []
         for c in conds:
@@ -52,6 +54,7 @@ def rule_op_gates(check):
                     elif t.get("k") == "Binary" and t["op"] in ("Eq", "Ne"):
                         sides = [hir.peel_transparent(t["l"]), hir.peel_transparent(t["r"])]
                         cs = [hir.def_path_of(x) for x in sides if hir.def_path_of(x)]
+                        cs += [SUBST[(fn_.def_path, hir.local_of(x)[0])] for x in sides if hir.local_of(x) and (fn_.def_path, hir.local_of(x)[0]) in SUBST]
                         fl = [x["field"] for x in sides if x.get("k") == "Field"]
                         eq = (t["op"] == "Eq") != neg
                         terms.append("%s%s%s" % (fl[0] if fl else "?", "==" if eq else "!=", cs[0].split("::")[-1] if cs else "?"))
@@ -74,6 +77,19 @@ def rule_op_gates(check):
                 src = hir.peel(hir.call_args(e)[0])
                 full = src.get("k") == "MethodCall" and src["method"] in ("iter",)
                 return [terms_of_cond_list(fn_, [{"t": "bool", "e": cl["body"], "v": True}]) + ([] if full else ["?partial-iteration"])]
+        if hir.is_call(e) and depth < 3:
+            h_ = prog.resolve_local(e)
+            if h_ is not None and h_.body is not None and h_ is not fn_:
+                # a crate helper: its result, with constant arguments substituted for its parameters
+                for i_, a_ in enumerate(hir.call_args(e)):
+                    d_ = hir.def_path_of(hir.peel_transparent(a_))
+                    if d_ and i_ < len(h_.rec["params"]):
+                        for b__ in hir.pat_bindings(h_.rec["params"][i_]["pat"]):
+                            SUBST[(h_.def_path, b__["local"])] = d_
+                out = []
+                for r_ in return_exprs(h_.body):
+                    out += producing_terms(h_, r_, depth + 1)
+                return out
         l = hir.local_of(e)
         if l and depth < 3:
             b_ = fn_.bindings().get(l[0])
@@ -540,6 +556,14 @@ def rule_defaults(check):
     check.expect(arms == wantv, R, R + "/verbosity-map", hir.loc(pa.rec), "verbosity map %s" % arms, "verbosity strings map to %s (documented %s)" % (arms, wantv))
     tails = [hir.peel(x) for x in return_exprs(pa.body)]
     none_default = [t for t in tails if (t.get("res", {}).get("ctor_path") or "").endswith("TelemetryVerbosity::Information") and not any(c["t"] == "pat" and c["v"] and "Some" in str(hir.pat_variant(c["pat"])) for c in pa.conds_at(t))]
+    # or through Option::map_or / map_or_else on the optional value
+    for m_ in hir.walk(pa.body):
+        if hir.is_call(m_) and (hir.callee_name(m_) or m_.get("method")) in ("map_or", "map_or_else"):
+            d_ = hir.peel(hir.call_args(m_)[1])
+            if d_.get("k") == "Closure":
+                d_ = hir.peel(d_["body"])
+            if (d_.get("res", {}).get("ctor_path") or "").endswith("TelemetryVerbosity::Information") and hir.local_of(hir.call_args(m_)[0]) and pa.bindings()[hir.local_of(hir.call_args(m_)[0])[0]]["origin"][0] == "param":
+                none_default.append(d_)
     check.expect(len(none_default) >= 1, R, R + "/verbosity-none", hir.loc(pa.rec), "None -> Information", "omitted telemetryVerbosity does not default to Information")
     cm = prog.fn("csi_methods::CsiMethod::new")
     found = False
